@@ -144,6 +144,7 @@ def main(argv):
 
     # ------------------------------------------------------------------ Kani harnesses
     kplan = plan.get("kani", {})
+    primary_universe, universe_recheck = None, None
     harnesses = list(kplan.get("quick", []))
     if tier == "thorough":
         harnesses += [h for h in kplan.get("thorough", []) if h not in harnesses]
@@ -173,6 +174,27 @@ def main(argv):
                         results[h]["retried_alone"] = True
             if not results:
                 undecided.append("kani: no harness results (build failed?): " + r["raw"][-1500:])
+            # thorough tier: the quick harnesses are run once more in a build with different crate hashes; a verdict that
+            # depends on the build (DESIGN 11.8) is no verdict
+            primary_universe = kx.current_universe(scratch)
+            if tier == "thorough" and results and os.environ.get("VERIF_NO_UNIVERSE_RECHECK") != "1":
+                alt = [u for u in kx.UNIVERSES if u != kx.current_universe(scratch)][0]
+                qh = list(kplan.get("quick", []))
+                sc2 = None
+                try:
+                    sc2 = kx.make_scratch(universe=alt)
+                    r2 = kx.run_kani(sc2, qh, jobs=jobs, timeout_s=int(plan.get("harness_timeout_s", 1500)))
+                    universe_recheck = {"universe": alt, "harnesses": {}}
+                    for h in qh:
+                        a, b = (results.get(h) or {}).get("status"), (r2["results"].get(h) or {}).get("status")
+                        universe_recheck["harnesses"][h] = b
+                        if a in ("ok", "fail") and b in ("ok", "fail") and a != b:
+                            undecided.append(f"kani/{h}: verdict '{a}' in the primary build, '{b}' in a build with different crate hashes (universe {alt}); tool instability")
+                except Exception as e:
+                    universe_recheck = {"universe": alt, "error": str(e)[:200]}
+                finally:
+                    if sc2:
+                        shutil.rmtree(sc2, ignore_errors=True)
             for h in harnesses:
                 res = results.get(h)
                 info = hinfo.get(h, {})
@@ -229,12 +251,48 @@ def main(argv):
                         os.remove(rp)
                         verdict = st
                 if verdict != "violation":
+                    # No input replays on the real code, so CBMC's word is all there is.  CBMC 6.11 / Kani 0.68 verdicts were
+                    # observed to depend on the build (DESIGN 11.8), so the refutation is believed only if
+                    #  (a) it does not carry the signature of that instability (memory-safety failures inside the Rust
+                    #      standard library: the code under contract in boolean/ has no unsafe code that could cause them), and
+                    #  (b) it is reproduced, with a common failed assertion, in two builds whose crate hashes differ.
+                    std_mem = [loc for fc, loc in zip(res["failed_checks"], res.get("failed_locations", []) + [""] * len(res["failed_checks"]))
+                               if fc.startswith("dereference failure") and "/rustlib/src/rust/library/" in (loc or "")]
+                    if std_mem:
+                        undecided.append(f"kani/{h}: refuted, but with memory-safety failures inside the standard library ({len(std_mem)}), the signature "
+                                         "of the build-dependent CBMC/Kani behaviour described in DESIGN 11.8; no verdict")
+                        continue
+                    primary_u = kx.current_universe(scratch)
+                    mine = {fc for fc in res["failed_checks"]}
+                    confirmed, unstable = 0, None
+                    for u in [u for u in kx.UNIVERSES if u != primary_u][:2]:
+                        sc2 = None
+                        try:
+                            sc2 = kx.make_scratch(universe=u)
+                            r2 = kx.run_kani(sc2, [h], jobs=1, timeout_s=int(plan.get("harness_timeout_s", 1500)) * 2)
+                            res2 = r2["results"].get(h)
+                        except Exception as e:
+                            res2 = None
+                        finally:
+                            if sc2:
+                                shutil.rmtree(sc2, ignore_errors=True)
+                        if res2 is not None and res2["status"] == "fail" and mine & set(res2["failed_checks"]):
+                            confirmed += 1
+                        else:
+                            unstable = f"universe {u}: " + (res2["status"] if res2 else "no result")
+                            break
+                    ob["universes_confirming"] = confirmed + 1
+                    if unstable:
+                        undecided.append(f"kani/{h}: refuted in the primary build ({failed_txt[:200]}) but not reproduced in a build with different "
+                                         f"crate hashes ({unstable}); tool instability, no verdict")
+                        continue
                     # the obligation was discharged on the unchanged tree and is refuted now, but no input replays on the real
                     # code (for harnesses marked `oracle`: the counterexample may use an answer of a stubbed dependency --
                     # orientation, intersection -- that is allowed by its contract but that the real dependency does not give
                     # on these coordinates; the function is verified against the callee's contract, not its body)
                     note = ("the harness replaces dependencies by contract stubs (oracle); the counterexample found by CBMC is valid against "
                             "those contracts but did not reproduce with the real dependencies\n" if info.get("oracle") else "")
+                    note += f"the refutation was reproduced in {confirmed + 1} builds with different crate hashes (universes, DESIGN 11.8)\n"
                     rp = write_replay(prop, h, f"failed obligation: kani/{h}\nfailed checks: {failed_txt}\n{note}no concrete counterexample could be replayed ({verdict})\n\n" + r["raw"][-4000:])
                     violations.append({"obligation": f"kani/{h}", "replay": rp, "note": "no-failing-input-found"})
 
@@ -341,6 +399,8 @@ def main(argv):
             "samples": samples,
             "undecided_this_run": undecided,
             "known_findings_hit": [k["text"] for k in known_hits],
+            "build_universe": {"primary": primary_universe, "recheck": universe_recheck,
+                               "note": "Kani verdicts are taken in the build given by /repo's Cargo.lock; an unreplayable refutation must be reproduced in two builds with different crate hashes, the thorough tier re-runs the quick harnesses in one (DESIGN 11.8)"},
             "explanation": plan.get("explanation", ""),
         },
         "assumptions": plan.get("assumptions", []) + PLAN.get("_assumptions_common", []),
